@@ -27,6 +27,10 @@ FIRST = {
     "C13-router-raw-ancestor": "exit 0 (Kani could not stub get_ancestor and ran the real trie in two trivial states) -> glue.verus.rs contract on Router::route with the documented contracts of get_ancestor / get_raw_ancestor",
     "C13-filter-case-insensitive-dfa-only": "exit 0 (how FilterLayer::layer configures the automaton was an assumption) -> glue.verus.rs contract on FilterLayer::layer over a settings-recording builder stub",
     "C10-hist-prefix-separator-in-writer": "same (written against C10, the change is in writer.rs: reported by C09's check; C10's own check does not include the writer)",
+    "C04-increment-saturates": "exit 2 (std fetch_update's retry loop had no unwinding bound in the loop-free harness: timeout) -> unwind(3) on the counter harnesses",
+    "C04-absolute-single-cas": "exit 0 (sequentially identical) -> R/G harness c04_counter_absolute_rg (other threads raise the counter before every atomic step)",
+    "C09-gauge-format-finite": "exit 2 (ryu stub had no format_finite) -> stub method with ryu's documented precondition (finite input)",
+    "C08-label-key-leading-digit-unsanitised": "exit 0 (key_to_parts glue was only in C07's plan) -> labels template added to C08's plan; the change rewrites the format!/map/collect chain that R20 replaces, so it is now reported as undecided",
     "C17-new-span-merges-current-not-parent": "exit 2 expected, not run (Context stub lacked lookup_current) -> stub widened",
     "C17-filter-sees-empty-value": "exit 2 expected, not run (closure annotation keyed to parameter names) -> annotation by position",
 }
